@@ -293,6 +293,18 @@ PROPS['C11'] = {
     'assumptions': [],
 }
 
+PROPS['C05'] = {
+    'level': 'proof',
+    'technique': 'Lean 4 theorems for the hand-assembled layouts on the DER TLV model (TLV round trip; capture layout: content-of-SEQUENCE-OF iterates item by item whereas a capture with header reads as one value; manifest content codec decode(encode)=value with len and iterator, byte-identical re-encoding; times, serial numbers, signed-attribute set in any order + DER signature input) + differential check: every builder (certificates, CRLs, manifests, ROAs, ASPAs, generic signed objects, CSRs, identity certificates, signed messages, RTAs) -> to_captured -> library decoder -> validator -> re-encoder, and a canonical dump of every public accessor/iterator of the built value compared with its decoded twin, oracle evaluated by the Lean driver',
+    'claim': 'Lean 4 proofs (all inputs): readTlv(tlv t c ++ rest) = (t,c,rest); a captured concatenation of item encodings is read back as exactly the items (the layout decoders capture and, since fixes 54fd888/a2fd24b, builders too) while a capture including the SEQUENCE header reads back as one value (why iterating a freshly built ROA attestation failed); manifest content: decodeContent(encodeContent number this next entries) returns exactly those values, len = number of entries, the iterator yields them, re-encoding is byte-identical; time and serial round trips (C17); the three signed attributes are accepted in any order and the signature input is their DER SET OF (C02). Partial: X.509/CMS/CRL/CSR envelopes are not modelled; for them the statement is decided by the correspondence run (decode, validate, re-encode identity, accessor-by-accessor agreement, no panic at any stage).',
+    'note': 'The builder/decoder capture shapes of ROA and ASPA and the manifest encode_ref field order are re-read from the source on every run. Inputs carry a conformity marker (conf=) computed by the generator from the object profiles; out-of-profile inputs are only required not to panic after decoding. One recorded finding: sub-second instants (see KNOWN_FINDINGS.txt).',
+    'shards': {'quick': 8, 'thorough': 16},
+    'budget': {'quick': 900, 'thorough': 10800},
+    'rule': '4.3k (thorough 43k) builder runs: certificates via TbsCert::new and via every setter (serials 0,1,127,128,255,256,2^63,2^159-1,random; validity incl. 1950/2049/2050/9999 so both time encodings occur; every URI setter; cA/AKI/key usage/EKU; Refuse/Trim; v4/v6/AS resources missing/inherit/blocks of every shape in any insertion order incl. overlapping, adjacent, 0/0, maximum address, AS 0 and 4294967295; RSA and EC keys), CRLs with 0-300 entries (duplicates, any order; contains() for every serial and its neighbours, with and without cache_serials), manifest contents (0-N files), ROA and ASPA contents through five builder APIs (1-16381 providers), complete signed objects (so/mft/roa/aspa) with validate_at/process under a library-built CA, CSRs, identity certificates (TA/EE), signed messages, RTAs; out-of-profile inputs mixed in and marked.',
+    'trusted_base': ['the accessor dump functions of the harness (one per type) as the meaning of "every accessor"', 'generator-side conformity classification (conf=/vexp=)'],
+    'assumptions': [],
+}
+
 NOT_APPLICABLE = {
 }
 for _i in range(1, 18):
